@@ -693,11 +693,15 @@ Definition sample_select (h : rg_header) (sample : option nat) (rgs : list (opti
   end.
 Definition rg_info := (rg_header * option nat * list (option nat))%type.
 Definition impl_out := (option (list (nat * list rvar)) * nat)%type.
-Definition read_set_sample (R : rules) (reference : option (list Z)) (threshold : Z) (rg : rg_info)
+(* constructor options of ReadSetReader varied by the check: (overhang, mapq_threshold, use_supplementary, duplicates) *)
+Definition options := (nat * nat * bool * bool)%type.
+Definition default_options : options := (10, 20, false, false).
+Definition read_set_sample (R : rules) (reference : option (list Z)) (threshold : Z) (o : options) (rg : rg_info)
            (variants : list variant) (alns : list alignment) : impl_out :=
   let '(h, sample, rgs) := rg in
+  let '(overhang, mapq, use_supp, dup) := o in
   match sample_select h sample rgs alns with
-  | (Some l, _) => (read_set_default R reference threshold variants l, 0)
+  | (Some l, _) => (read_set R reference overhang mapq use_supp dup threshold variants l, 0)
   | (None, e) => (None, e)
   end.
 (* the alignments that belong to the requested sample (specification side: every read group whose SM is the sample) *)
@@ -717,7 +721,7 @@ Definition malformed (rg : rg_info) : bool :=
    (reference mode) resp. all fully covered variants (reference-free mode); truth_skip / must_skip: the window
    is clean except that it reaches a reference skip; must_pair: like must, but also for the mate on the other strand.
    All of them refer to the alignments of the requested sample only. *)
-Definition case_t := ((option (list Z) * Z * rg_info) * list variant * list alignment
+Definition case_t := ((option (list Z) * Z * options * rg_info) * list variant * list alignment
                       * (truth_t * truth_t) * (must_t * must_t * must_t)
                       * impl_out)%type.
 
@@ -731,11 +735,11 @@ Definition l1_no_wrong_skip (c : case_t) : bool :=
   let '(_, _, _, (_, truth_skip), _, _) := c in with_out c (no_wrong_allele truth_skip).
 (* only overlapped variants, and only on reads of the requested sample *)
 Definition l1_overlap (c : case_t) : bool :=
-  let '((_, _, rg), variants, alns, _, _, _) := c in
-  with_out c (only_overlapped 20 false false variants (of_sample rg alns)).
+  let '((_, _, (_, mapq, use_supp, dup), rg), variants, alns, _, _, _) := c in
+  with_out c (only_overlapped mapq use_supp dup variants (of_sample rg alns)).
 Definition l1_overlap_touch (c : case_t) : bool :=
-  let '((_, _, rg), variants, alns, _, _, _) := c in
-  with_out c (only_overlapped_or_touched 20 false false variants (of_sample rg alns)).
+  let '((_, _, (_, mapq, use_supp, dup), rg), variants, alns, _, _, _) := c in
+  with_out c (only_overlapped_or_touched mapq use_supp dup variants (of_sample rg alns)).
 Definition l1_missing (c : case_t) : bool :=
   let '(_, _, _, _, (must, _, _), _) := c in with_out c (none_missing must).
 Definition l1_missing_skip (c : case_t) : bool :=
@@ -743,11 +747,11 @@ Definition l1_missing_skip (c : case_t) : bool :=
 Definition l1_missing_pair (c : case_t) : bool :=
   let '(_, _, _, _, (_, _, must_pair), _) := c in with_out c (none_missing must_pair).
 Definition l1_no_crash (c : case_t) : bool :=
-  let '((_, _, rg), _, _, _, _, _) := c in
+  let '((_, _, _, rg), _, _, _, _, _) := c in
   malformed rg || match c_out c with Some _ => true | None => false end.
 Definition l2_model_with (R : rules) (c : case_t) : bool :=
-  let '((reference, threshold, rg), variants, alns, _, _, (out, err)) := c in
-  let '(m, merr) := read_set_sample R reference threshold rg variants alns in
+  let '((reference, threshold, o, rg), variants, alns, _, _, (out, err)) := c in
+  let '(m, merr) := read_set_sample R reference threshold o rg variants alns in
   (err =? merr) &&
   match out, m with
   | Some o, Some m => out_eqb o m
@@ -759,8 +763,8 @@ Definition clauses_ok (c : case_t) : bool :=
   l1_no_crash c && l1_no_wrong c && l1_no_wrong_skip c && l1_overlap c && l1_missing c && l1_missing_skip c
   && l1_missing_pair c.
 Definition with_model (R : rules) (c : case_t) : case_t :=
-  let '((reference, threshold, rg), variants, alns, tr, mu, _) := c in
-  ((reference, threshold, rg), variants, alns, tr, mu, read_set_sample R reference threshold rg variants alns).
+  let '((reference, threshold, o, rg), variants, alns, tr, mu, _) := c in
+  ((reference, threshold, o, rg), variants, alns, tr, mu, read_set_sample R reference threshold o rg variants alns).
 (* the same input under the repaired rules satisfies every L1 clause (evaluated on the model's output) *)
 Definition repaired_ok (c : case_t) : bool := clauses_ok (with_model repaired_rules c).
 (* attribution of a failing case to the defective rules: rule k is needed iff repairing all others is not enough *)
